@@ -118,6 +118,10 @@ type Broken = (&'static str, String);
 #[derive(Default, Clone)]
 struct Obs {
     root: Option<H32>,
+    /// recomputed hashes of the internal nodes: a caller can compute them from the
+    /// tree or read them off any inclusion proof, and may well hand one in as the
+    /// hash of a new leaf
+    internal_hashes: Vec<H32>,
     leaves: usize,
     leaf_idx: Vec<u32>,
     internal_idx: Vec<u32>,
@@ -131,6 +135,8 @@ struct Walk {
     leaves: BTreeMap<i64, (i64, H32, u32)>,
     leaf_idx: Vec<u32>,
     internal_idx: Vec<u32>,
+    /// recomputed hashes of the internal nodes (the root's included)
+    internal_hashes: Vec<H32>,
     dup_key: Option<i64>,
 }
 
@@ -143,6 +149,7 @@ fn walk(blob: &MerkleBlob) -> Result<Walk, String> {
         leaves: BTreeMap::new(),
         leaf_idx: vec![],
         internal_idx: vec![],
+        internal_hashes: vec![],
         dup_key: None,
     };
     if nblocks == 0 {
@@ -192,7 +199,9 @@ fn walk(blob: &MerkleBlob) -> Result<Walk, String> {
             Frame::Combine(_idx) => {
                 let r = vals.pop().expect("value stack");
                 let l = vals.pop().expect("value stack");
-                vals.push(internal(&l, &r));
+                let h = internal(&l, &r);
+                w.internal_hashes.push(h);
+                vals.push(h);
             }
         }
     }
@@ -385,8 +394,11 @@ fn check_state(blob: &MerkleBlob, model: &Model) -> Result<Obs, Broken> {
     leaf_idx.sort_unstable();
     let mut internal_idx = w.internal_idx;
     internal_idx.sort_unstable();
+    let mut internal_hashes = w.internal_hashes.clone();
+    internal_hashes.sort_unstable();
     Ok(Obs {
         root: w.root,
+        internal_hashes,
         leaves: w.leaves.len(),
         leaf_idx,
         internal_idx,
@@ -720,6 +732,14 @@ fn run_history(bytes: &[u8], ctx: &mut Ctx, want_log: bool, log: &mut Vec<String
             0 => {
                 // Insert
                 let (mut k, v, mut h) = g.entry(&model);
+                // one hash in 32 is replaced by the current hash of an INTERNAL node
+                // of this very tree (decided by bits of the hash itself: no extra
+                // choice is consumed). It is not a leaf hash, so the insert is as
+                // legal as with any other fresh hash.
+                if h[31] & 0x1f == 0x1f && !prev.internal_hashes.is_empty() {
+                    h = prev.internal_hashes[usize::from(h[30]) % prev.internal_hashes.len()];
+                    ctx.label("insert:leaf-hash-equals-an-internal-node-hash");
+                }
                 if !g.large && g.s.weighted(&[3, 5]) == 1 {
                     // small key space: mostly aim at an unused key so that trees grow
                     if let Some(fk) = g.fresh_key(&model, &BTreeSet::new()) {
@@ -777,6 +797,10 @@ fn run_history(bytes: &[u8], ctx: &mut Ctx, want_log: bool, log: &mut Vec<String
             2 => {
                 // Upsert
                 let (mut k, v, mut h) = g.entry(&model);
+                if h[31] & 0x1f == 0x1f && !prev.internal_hashes.is_empty() {
+                    h = prev.internal_hashes[usize::from(h[30]) % prev.internal_hashes.len()];
+                    ctx.label("upsert:leaf-hash-equals-an-internal-node-hash");
+                }
                 if g.s.weighted(&[1, 3]) == 1 {
                     if let Some(pk) = g.present_key(&model) {
                         // keep a derived hash derived from the final key
@@ -1181,6 +1205,8 @@ pub fn run_main() {
                 "chain-prologue:depth-64-66",
                 "chain-prologue:depth-67-99",
                 "chain-prologue:depth-100+",
+                "insert:leaf-hash-equals-an-internal-node-hash",
+                "upsert:leaf-hash-equals-an-internal-node-hash",
             ],
         }],
     });
